@@ -162,6 +162,9 @@ func scByzFrames(r *Run) {
 	if byz == mp.B {
 		floodID |= 1 // the peer's identifiers have its parity
 	}
+	// (a tube on which the peer plays a scripted closing exchange, see below)
+	scriptID := floodID - 0x10
+	scriptCloseAfter := time.Duration(r.Intn("script", 40)) * time.Millisecond
 	// honest accept loop: every offered tube is read until it ends
 	bgAccepted := make(chan tubes.Tube, 1)
 	first := true
@@ -180,6 +183,23 @@ func scByzFrames(r *Run) {
 			r.Probe("byzantine-tube-accepted")
 			if !t.IsReliable() && t.GetID() == floodID {
 				r.Probe("flooded-tube-accepted-and-left-unread")
+				continue
+			}
+			if t.IsReliable() && t.GetID() == scriptID {
+				// the tube of the scripted closing exchange: read by the application and closed at once
+				r.Probe("scripted-tube-accepted")
+				r.Go(func() {
+					buf := make([]byte, 4096)
+					for {
+						if _, err := t.Read(buf); err != nil {
+							return
+						}
+					}
+				})
+				r.Go(func() {
+					time.Sleep(scriptCloseAfter)
+					WithTimeout(r, 30*time.Second, func() { t.Close() })
+				})
 				continue
 			}
 			r.Go(func() {
@@ -288,6 +308,53 @@ func scByzFrames(r *Run) {
 		binary.BigEndian.PutUint32(fin[8:12], uint32(nFlood+1))
 		n.Inject(byzAddr, honestAddr, fin, 0, "flood-fin")
 		r.CountFault("unread-unreliable-tube-flooded-then-ended", 1)
+	}
+	// a scripted closing exchange in every order: the peer opens a reliable tube, the honest application closes
+	// it at once; the peer acknowledges that FIN, and sends its own FIN and its last data frames - in any order,
+	// with gaps between them or none (a FIN that overtakes the data before it is parked until the gap fills)
+	if r.Intn("script", 4) == 0 {
+		rel := byte(1 << 2)
+		n.Inject(byzAddr, honestAddr, []byte{scriptID, 0x01 | rel, 0, 0, byte(common.PFTube), 0, 0, 0, 0, 0, 0, 0}, 0, "script-req")
+		time.Sleep(scriptCloseAfter + time.Duration(r.Intn("script", 80))*time.Millisecond)
+		nData := r.Intn("script", 4)
+		ackOfFin := uint32(1 + r.Intn("script", 3))
+		mk := func(flags byte, ackNo, frameNo uint32, data string) []byte {
+			f := make([]byte, 12+len(data))
+			f[0], f[1] = scriptID, flags|rel
+			binary.BigEndian.PutUint16(f[2:4], uint16(len(data)))
+			binary.BigEndian.PutUint32(f[4:8], ackNo)
+			binary.BigEndian.PutUint32(f[8:12], frameNo)
+			copy(f[12:], data)
+			return f
+		}
+		steps := [][]byte{mk(1<<3, ackOfFin, 1, "")} // acknowledgement of the honest FIN
+		for d := 0; d < nData; d++ {
+			fl := byte(0)
+			if r.Intn("script", 2) == 0 {
+				fl = 1 << 3
+			}
+			steps = append(steps, mk(fl, ackOfFin, uint32(1+d), "last words"))
+		}
+		finFlags := byte(1 << 4)
+		if r.Intn("script", 2) == 0 {
+			finFlags |= 1 << 3
+		}
+		steps = append(steps, mk(finFlags, ackOfFin, uint32(1+nData), ""))
+		// any order
+		for i := len(steps) - 1; i > 0; i-- {
+			j := r.Intn("script", i+1)
+			steps[i], steps[j] = steps[j], steps[i]
+		}
+		for _, f := range steps {
+			n.Inject(byzAddr, honestAddr, f, 0, "script-frame")
+			if r.Intn("script", 2) == 0 {
+				time.Sleep(time.Duration(r.Intn("script", 60)) * time.Millisecond)
+			}
+			if r.Intn("script", 6) == 0 {
+				n.Inject(byzAddr, honestAddr, f, 0, "script-frame-again")
+			}
+		}
+		r.CountFault("scripted-closing-exchange", 1)
 	}
 	near := uint32(1)
 	for i := 0; i < nFrames; i++ {
